@@ -20,6 +20,8 @@ func checkC18(c *Ctx) {
 	c.Expect("C18-R4", 2)
 	c.Rule("C18-R5", "HideCursor moves the requested cursor position off-screen, so GetCursor keeps reporting a hidden cursor after the next Show or Sync")
 	c.Expect("C18-R5", 1)
+	c.Rule("C18-R7", "the simulation's fallback table is its own map (made on the spot, never the shared stock table, which nothing writes), and every draw ends by re-evaluating the requested cursor position (showCursor after the cell loop on every path)")
+	c.Expect("C18-R7", 2)
 	c.Rule("C18-R6", "InjectKeyBytes delivers U+FFFD when it is what was injected: a decoded rune equal to U+FFFD is dropped only if the consumed bytes are not the charset's own encoding of U+FFFD (same rule as the terminfo screen's rune parser)")
 	c.Expect("C18-R6", 1)
 	c.Expect("C18-R1", 2)
@@ -68,6 +70,8 @@ func checkC18(c *Ctx) {
 	checkDirtyGate(c, p, dc, "C18-R3", isSimEmission, 2)
 	checkEncodeDst(c, p, dc, "C18-R4")
 	checkHideCursor(c, p, "C18-R5", "simscreen")
+	checkFallbackOwnership(c, p, "C18-R7", "simscreen")
+	checkCursorEpilogue(c, p, "C18-R7", "simscreen")
 	if inj := p.Fn("tcell:(*simscreen).InjectKeyBytes"); inj != nil {
 		checkGenuineReplacementChar(c, p, inj, "C18-R6")
 	} else {
